@@ -985,6 +985,9 @@ class _Interp(object):
                 return FRESH(IMMUT)
             if full in ('functools.reduce',):
                 return join(pos[1].element() if len(pos) > 1 else IMMUT, pos[2] if len(pos) > 2 else IMMUT)
+            if full in ('collections.ChainMap',):
+                # a view: writes go to the first mapping, reads see all of them - it aliases its arguments
+                return joinall(pos) if pos else FRESH(IMMUT)
             if top == 'collections':
                 return FRESH(joinall([p.element() for p in pos]) if pos else IMMUT)
             if top in IMMUT_MODULES or top in ('dateutil', 'ply'):
